@@ -1,5 +1,5 @@
 (* C08 — every trace of Model/Stack.v is accepted by the monitor Spec/C08Spec.v. *)
-From Verif Require Import Base.Prelude Model.Stack Spec.C08Spec Proofs.StackLemmas.
+From Verif Require Import Base.Prelude Model.Stack Spec.StackObs Spec.C08Spec Proofs.StackLemmas Proofs.StackInv.
 
 Definition strip (e : entry) : sentry := {| s_srv := e_srv e; s_ski := e_ski e; s_cli := e_cli e |}.
 Definition abs (l : list entry) : list sentry := map strip l.
@@ -57,9 +57,6 @@ Proof.
 Qed.
 
 (* ---------- projections of model outputs ---------- *)
-Lemma results_app a b : results (a ++ b) = results a ++ results b.
-Proof. unfold results. apply flat_map_app. Qed.
-
 Lemma results_call p ctr ack err src dst :
   results (call_result p ctr ack err src dst) = expect_result p ctr ack err.
 Proof. unfold call_result, expect_result. destruct err; [reflexivity|]. destruct ack; reflexivity. Qed.
@@ -73,38 +70,15 @@ Proof. unfold call_result. destruct err; [reflexivity|]. destruct ack; reflexivi
 Lemma notify_all_notify s sf fn v : forall o, In o (notify_subscribers s sf fn v) -> is_notify o = true.
 Proof. unfold notify_subscribers. intros o H. apply in_map_iff in H. destruct H as [x [<- _]]. reflexivity. Qed.
 
-Lemma filter_all {A} (P : A -> bool) l : (forall x, In x l -> P x = true) -> filter P l = l.
-Proof.
-  induction l as [|x l IH]; simpl; intros H; [reflexivity|].
-  rewrite (H x (or_introl eq_refl)). f_equal. apply IH. intros y Hy. apply H. now right.
-Qed.
-
-Lemma filter_none {A} (P : A -> bool) l : (forall x, In x l -> P x = false) -> filter P l = [].
-Proof.
-  induction l as [|x l IH]; simpl; intros H; [reflexivity|].
-  rewrite (H x (or_introl eq_refl)). apply IH. intros y Hy. apply H. now right.
-Qed.
-
-Lemma existsb_none {A} (P : A -> bool) l : (forall x, In x l -> P x = false) -> existsb P l = false.
-Proof.
-  induction l as [|x l IH]; simpl; intros H; [reflexivity|].
-  rewrite (H x (or_introl eq_refl)). apply IH. intros y Hy. apply H. now right.
-Qed.
-
 (* ---------- the invariant ---------- *)
-Definition owner_ok (s : st) (e : entry) : Prop :=
-  exists pe en, find_peer s (e_ski e) = Some pe /\ find_rent pe (fa_ent (e_cli e)) = Some en.
-
 Record Inv (s : st) (m : mst) : Prop := {
   inv_w : w m = s;
   inv_reg : reg m = abs (subs s);
-  inv_ids : forall e, In e (subs s) -> (e_id e <= next_sub s)%N;
-  inv_nodup : NoDup (map e_id (subs s));
-  inv_owner : forall e, In e (subs s) -> owner_ok s e
+  inv_s : SInv s
 }.
 
 Lemma inv_init : Inv init minit.
-Proof. constructor; simpl; try reflexivity; try tauto. constructor. Qed.
+Proof. constructor; [reflexivity | reflexivity | exact sinv_init]. Qed.
 
 (* the fan-out expected by the monitor is what the model sends *)
 Lemma fanout_eq s m sf fn v : Inv s m -> fanout m sf fn v = notify_subscribers s sf fn v.
@@ -115,9 +89,6 @@ Proof.
 Qed.
 
 (* ---------- the registry handlers against the rules ---------- *)
-Definition mk_entry (id : N) (sf : lfeat) (ski : N) (cli : faddr) : entry :=
-  {| e_id := id; e_srv := (lf_ent sf, lf_id sf); e_ski := ski; e_cli := cli |}.
-
 Lemma set_subs_same s : set_subs s (subs s) (next_sub s) = s.
 Proof. destruct s; reflexivity. Qed.
 
@@ -169,423 +140,8 @@ Proof.
   destruct (existsb _ (subs s)); reflexivity.
 Qed.
 
-(* ---------- teardown: what entity removal and disconnect do to the registry ---------- *)
-Definition gone_of (evs : list obs) : list eaddr :=
-  flat_map (fun x => match x with OEvent EvEntity ChRemove _ (Some e) _ _ => [e] | _ => [] end) evs.
-
-Definition drop (p : N) (g : list eaddr) (l : list entry) : list entry :=
-  filter (fun x => negb (N.eqb (e_ski x) p && existsb (eqb_eaddr (fa_ent (e_cli x))) g)) l.
-
-Lemma gone_of_app a b : gone_of (a ++ b) = gone_of a ++ gone_of b.
-Proof. unfold gone_of. apply flat_map_app. Qed.
-
-Lemma drop_nil p l : drop p [] l = l.
-Proof. unfold drop. apply filter_all. intros x _. simpl. rewrite andb_false_r. reflexivity. Qed.
-
-Lemma filter_filter {A} (P Q : A -> bool) l : filter P (filter Q l) = filter (fun x => Q x && P x) l.
-Proof.
-  induction l as [|x l IH]; simpl; [reflexivity|].
-  destruct (Q x); simpl; [destruct (P x); rewrite IH; reflexivity | exact IH].
-Qed.
-
-Lemma filter_ext' {A} (P Q : A -> bool) l : (forall x, P x = Q x) -> filter P l = filter Q l.
-Proof. intros H. induction l as [|x l IH]; simpl; [reflexivity|]. rewrite H, IH. reflexivity. Qed.
-
-Lemma drop_app p g1 g2 l : drop p (g1 ++ g2) l = drop p g2 (drop p g1 l).
-Proof.
-  unfold drop. rewrite filter_filter. apply filter_ext'. intros x.
-  rewrite existsb_app. destruct (N.eqb (e_ski x) p); simpl; [|reflexivity].
-  destruct (existsb _ g1); reflexivity.
-Qed.
-
-Definition RegOK (s : st) : Prop := forall e, In e (subs s) -> owner_ok s e.
-
-Lemma evs_removed_gone k s pe en l : gone_of (map (ev_removed k s pe en) l) = [] \/ k = EvEntity.
-Proof.
-  destruct k; try (left; induction l as [|x l IH]; simpl; [reflexivity | exact IH]). right; reflexivity.
-Qed.
-
-Lemma evs_removed_quiet k s pe en l :
-  existsb is_notify (map (ev_removed k s pe en) l) = false /\ results (map (ev_removed k s pe en) l) = [].
-Proof. induction l as [|x l [IH1 IH2]]; simpl; [split; reflexivity|]. split; assumption. Qed.
-
-Lemma remove_for_entity_spec s pe en :
-  let '(s', evs) := remove_for_entity s pe en in
-  subs s' = drop (p_ski pe) [re_addr en] (subs s) /\ next_sub s' = next_sub s /\ peers s' = peers s /\
-  gone_of evs = [] /\ existsb is_notify evs = false /\ results evs = [].
-Proof.
-  unfold remove_for_entity. simpl.
-  split; [|split; [reflexivity|split; [reflexivity|]]].
-  - unfold drop. apply filter_ext'. intros x. unfold entity_match. simpl. rewrite orb_false_r. reflexivity.
-  - rewrite gone_of_app, existsb_app, results_app.
-    destruct (evs_removed_gone EvSub s pe en (filter (entity_match pe en) (subs s))) as [->|]; [|discriminate].
-    match goal with |- context [map (ev_removed EvBind s pe en) ?l] =>
-      destruct (evs_removed_gone EvBind s pe en l) as [->|]; [|discriminate];
-      destruct (evs_removed_quiet EvBind s pe en l) as [-> ->] end.
-    destruct (evs_removed_quiet EvSub s pe en (filter (entity_match pe en) (subs s))) as [-> ->].
-    repeat split; reflexivity.
-Qed.
-
-Lemma clean_entity_caches_frame s en :
-  subs (clean_entity_caches s en) = subs s /\ next_sub (clean_entity_caches s en) = next_sub s /\
-  peers (clean_entity_caches s en) = peers s.
-Proof. unfold clean_entity_caches. destruct (re_dev en); simpl; repeat split; reflexivity. Qed.
-
-Lemma owner_peers s s1 e : peers s1 = peers s -> owner_ok s e -> owner_ok s1 e.
-Proof. unfold owner_ok, find_peer. intros ->. tauto. Qed.
-
-Lemma find_rent_filter pe a e :
-  e <> a ->
-  find_rent {| p_ski := p_ski pe; p_addr := p_addr pe;
-               p_ents := filter (fun x => negb (eqb_eaddr (re_addr x) a)) (p_ents pe) |} e = find_rent pe e.
-Proof.
-  intros Hne. unfold find_rent. simpl. induction (p_ents pe) as [|x l IH]; simpl; [reflexivity|].
-  destruct (eqb_eaddr (re_addr x) a) eqn:Ea; simpl.
-  - destruct (eqb_eaddr (re_addr x) e) eqn:Ee; [|exact IH].
-    apply eqb_eaddr_eq in Ea, Ee. congruence.
-  - destruct (eqb_eaddr (re_addr x) e); [reflexivity | exact IH].
-Qed.
-
-Lemma remove_entities_cons s p de r :
-  remove_entities s p (de :: r) =
-  match find_peer s p with
-  | None => (s, [], true)
-  | Some pe =>
-      if negb (check_entity pe de) then (s, [], true) else
-      match find_rent pe (de_addr de) with
-      | None => remove_entities s p r
-      | Some en =>
-          let pe1 := {| p_ski := p_ski pe; p_addr := p_addr pe;
-                        p_ents := filter (fun x => negb (eqb_eaddr (re_addr x) (de_addr de))) (p_ents pe) |} in
-          let s1 := set_peer s pe1 in
-          let '(s2, evs) := remove_for_entity s1 pe1 en in
-          let s3 := clean_entity_caches s2 en in
-          let '(s4, evs2, err) := remove_entities s3 p r in
-          (s4, ev_entity ChRemove pe en.(re_addr) :: evs ++ evs2, err)
-      end
-  end.
-Proof. reflexivity. Qed.
-
-Lemma remove_entities_spec l : forall s p s' evs err,
-  RegOK s -> remove_entities s p l = (s', evs, err) ->
-  RegOK s' /\ subs s' = drop p (gone_of evs) (subs s) /\ next_sub s' = next_sub s /\
-  existsb is_notify evs = false /\ results evs = [].
-Proof.
-  induction l as [|de r IH]; intros s p s' evs err Hok H.
-  - simpl in H. inversion H; subst. rewrite drop_nil. repeat split; auto.
-  - rewrite remove_entities_cons in H. destruct (find_peer s p) as [pe|] eqn:Ep.
-    2:{ inversion H; subst. rewrite drop_nil. repeat split; auto. }
-    destruct (check_entity pe de); cbn [negb] in H.
-    2:{ inversion H; subst. rewrite drop_nil. repeat split; auto. }
-    destruct (find_rent pe (de_addr de)) as [en|] eqn:Een; [|exact (IH _ _ _ _ _ Hok H)].
-    cbv zeta in H.
-    set (pe1 := {| p_ski := p_ski pe; p_addr := p_addr pe;
-                   p_ents := filter (fun x => negb (eqb_eaddr (re_addr x) (de_addr de))) (p_ents pe) |}) in *.
-    pose proof (remove_for_entity_spec (set_peer s pe1) pe1 en) as Hr.
-    destruct (remove_for_entity (set_peer s pe1) pe1 en) as [s2 evs1].
-    destruct Hr as [Hs2 [Hn2 [Hp2 [Hg [Hq Hres]]]]].
-    destruct (clean_entity_caches_frame s2 en) as [Hs3 [Hn3 Hp3]].
-    destruct (remove_entities (clean_entity_caches s2 en) p r) as [[s4 evs2] err2] eqn:Er.
-    injection H as H1 H2 H3. subst s' evs err.
-    pose proof (find_peer_ski _ _ _ Ep) as Hski.
-    assert (Hok3 : RegOK (clean_entity_caches s2 en)).
-    { intros e He. rewrite Hs3, Hs2 in He. unfold drop in He. apply filter_In in He. destruct He as [He Hm].
-      simpl in He. destruct (Hok e He) as [pe' [en' [Hf Hr']]].
-      unfold owner_ok, find_peer. rewrite Hp3, Hp2. fold (find_peer (set_peer s pe1) (e_ski e)).
-      rewrite find_peer_set_peer, Hf. simpl p_ski. simpl in Hm.
-      destruct (N.eqb_spec (e_ski e) (p_ski pe)) as [E|E].
-      - exists pe1. assert (pe' = pe) by congruence. subst pe'.
-        destruct (eqb_eaddr (fa_ent (e_cli e)) (re_addr en)) eqn:Ea; [simpl in Hm; discriminate|].
-        exists en'. split; [reflexivity|]. unfold pe1. rewrite find_rent_filter; [exact Hr'|].
-        intros Hx. rewrite <- (find_rent_addr _ _ _ Een) in Hx. rewrite Hx, eqb_eaddr_refl in Ea. discriminate.
-      - exists pe', en'. split; [reflexivity | exact Hr']. }
-    destruct (IH _ _ _ _ _ Hok3 Er) as [Hok4 [Hs4 [Hn4 [Hq4 Hres4]]]].
-    split; [exact Hok4|]. split; [|split; [|split]].
-    + rewrite Hs4, Hs3, Hs2. simpl subs. simpl gone_of at 2.
-      change (gone_of (ev_entity ChRemove pe (re_addr en) :: evs1 ++ evs2))
-        with (re_addr en :: gone_of (evs1 ++ evs2)).
-      rewrite gone_of_app, Hg. simpl app. change (re_addr en :: gone_of evs2) with ([re_addr en] ++ gone_of evs2).
-      rewrite drop_app. rewrite <- Hski. reflexivity.
-    + rewrite Hn4, Hn3, Hn2. reflexivity.
-    + simpl. rewrite existsb_app, Hq, Hq4. reflexivity.
-    + change (results (ev_entity ChRemove pe (re_addr en) :: evs1 ++ evs2)) with (results (evs1 ++ evs2)).
-      rewrite results_app, Hres, Hres4. reflexivity.
-Qed.
-
-Lemma RegOK_set_peer_add s p pe m l :
-  find_peer s p = Some pe -> RegOK s -> RegOK (set_peer s (fst (add_entities pe m l))).
-Proof.
-  intros Hp Hok e He. simpl in He. destruct (Hok e He) as [pe' [en' [Hf Hr]]].
-  unfold owner_ok. rewrite find_peer_set_peer, Hf, add_entities_ski.
-  pose proof (find_peer_ski _ _ _ Hp) as Hski.
-  destruct (N.eqb_spec (e_ski e) (p_ski pe)) as [E|E].
-  - assert (pe' = pe) by congruence. subst pe'.
-    assert (Hh : has_rent pe (fa_ent (e_cli e)) = true) by (apply has_rent_find; eauto).
-    apply (add_entities_keeps pe m l) in Hh. apply has_rent_find in Hh. destruct Hh as [en2 Hen2].
-    eauto.
-  - eauto.
-Qed.
-
-Lemma gone_of_added pe l : gone_of (map (ev_entity ChAdd pe) l) = [].
-Proof. induction l as [|x l IH]; simpl; [reflexivity | exact IH]. Qed.
-
-Lemma quiet_added pe l :
-  existsb is_notify (map (ev_entity ChAdd pe) l) = false /\ results (map (ev_entity ChAdd pe) l) = [].
-Proof. induction l as [|x l [IH1 IH2]]; simpl; split; auto. Qed.
-
-Lemma notify_entries_cons s p m de r :
-  notify_entries s p m (de :: r) =
-  match de_state de with
-  | None => (s, [], true)
-  | Some SAdded =>
-      match find_peer s p with
-      | None => (s, [], true)
-      | Some pe =>
-          if negb (all_checked pe (dm_ents m)) then
-            let ok := (fix pre (l : list disc_ent) := match l with
-                                                      | [] => []
-                                                      | d :: t => if check_entity pe d then d :: pre t else []
-                                                      end) (dm_ents m) in
-            let '(pe1, _) := add_entities pe m ok in
-            (set_peer s pe1, [], true)
-          else
-          let '(pe1, created) := add_entities pe m (dm_ents m) in
-          let s1 := set_peer s pe1 in
-          let '(s2, evs, err) := notify_entries s1 p m r in
-          (s2, map (ev_entity ChAdd pe) created ++ evs, err)
-      end
-  | Some SRemoved =>
-      let '(s1, evs, err) := remove_entities s p (dm_ents m) in
-      if err then (s1, evs, true) else
-      let '(s2, evs2, err2) := notify_entries s1 p m r in
-      (s2, evs ++ evs2, err2)
-  end.
-Proof. reflexivity. Qed.
-
-Lemma notify_entries_spec l : forall s p m s' evs err,
-  RegOK s -> notify_entries s p m l = (s', evs, err) ->
-  RegOK s' /\ subs s' = drop p (gone_of evs) (subs s) /\ next_sub s' = next_sub s /\
-  existsb is_notify evs = false /\ results evs = [].
-Proof.
-  induction l as [|de r IH]; intros s p m s' evs err Hok H.
-  - simpl in H. inversion H; subst. rewrite drop_nil. repeat split; auto.
-  - rewrite notify_entries_cons in H.
-    destruct (de_state de) as [[|]|].
-    + (* added *)
-      destruct (find_peer s p) as [pe|] eqn:Ep.
-      2:{ inversion H; subst. rewrite drop_nil. repeat split; auto. }
-      destruct (all_checked pe (dm_ents m)); cbn [negb] in H.
-      * pose proof (RegOK_set_peer_add s p pe m (dm_ents m) Ep Hok) as Hok1.
-        destruct (add_entities pe m (dm_ents m)) as [pe1 created]. simpl fst in Hok1. cbv zeta in H.
-        destruct (notify_entries (set_peer s pe1) p m r) as [[s2 evs2] err2] eqn:Er.
-        injection H as H1 H2 H3. subst s' evs err.
-        destruct (IH _ _ _ _ _ _ Hok1 Er) as [Hok2 [Hs2 [Hn2 [Hq2 Hr2]]]].
-        destruct (quiet_added pe created) as [Hqa Hra].
-        split; [exact Hok2|]. split; [|split; [|split]].
-        -- rewrite Hs2, gone_of_app, gone_of_added. reflexivity.
-        -- rewrite Hn2. reflexivity.
-        -- rewrite existsb_app, Hqa, Hq2. reflexivity.
-        -- rewrite results_app, Hra, Hr2. reflexivity.
-      * cbv zeta in H.
-        match type of H with context [add_entities pe m ?ok] =>
-          pose proof (RegOK_set_peer_add s p pe m ok Ep Hok) as Hok1; destruct (add_entities pe m ok) as [pe1 cr] end.
-        simpl fst in Hok1. inversion H; subst. rewrite drop_nil. repeat split; auto.
-    + (* removed *)
-      destruct (remove_entities s p (dm_ents m)) as [[s1 evs1] err1] eqn:Er1.
-      destruct (remove_entities_spec _ _ _ _ _ _ Hok Er1) as [Hok1 [Hs1 [Hn1 [Hq1 Hr1]]]].
-      destruct err1.
-      * inversion H; subst. repeat split; auto.
-      * destruct (notify_entries s1 p m r) as [[s2 evs2] err2] eqn:Er.
-        injection H as H1 H2 H3. subst s' evs err.
-        destruct (IH _ _ _ _ _ _ Hok1 Er) as [Hok2 [Hs2 [Hn2 [Hq2 Hr2]]]].
-        split; [exact Hok2|]. split; [|split; [|split]].
-        -- rewrite Hs2, Hs1, gone_of_app, drop_app. reflexivity.
-        -- rewrite Hn2, Hn1. reflexivity.
-        -- rewrite existsb_app, Hq1, Hq2. reflexivity.
-        -- rewrite results_app, Hr1, Hr2. reflexivity.
-    + inversion H; subst. rewrite drop_nil. repeat split; auto.
-Qed.
-
-(* ---------- disconnect ---------- *)
-Definition F1 (pe : peer) := (fun (acc : st * list obs) (en : rent) =>
-                      let '(sa, ea) := acc in
-                      let gone := filter (entity_match pe en) (subs sa) in
-                      (set_subs sa (filter (fun x => negb (entity_match pe en x)) (subs sa)) (next_sub sa),
-                       ea ++ map (ev_removed EvSub sa pe en) gone)).
-Definition F2 (pe : peer) := (fun (acc : st * list obs) (en : rent) =>
-               let '(sa, ea) := acc in
-               let gone := filter (entity_match pe en) (binds sa) in
-               (set_binds sa (filter (fun x => negb (entity_match pe en x)) (binds sa)) (next_bind sa),
-                ea ++ map (ev_removed EvBind sa pe en) gone)).
-
-Lemma remove_all_unfold s pe :
-  remove_all_for_device s pe = fold_left (F2 pe) (p_ents pe) (fold_left (F1 pe) (p_ents pe) (s, [])).
-Proof. unfold remove_all_for_device. destruct (fold_left _ (p_ents pe) (s, [])) as [s1 ev1]. reflexivity. Qed.
-
-Definition quiet_evs (evs : list obs) : Prop := existsb is_notify evs = false /\ results evs = [].
-
-Lemma quiet_evs_app a b : quiet_evs a -> quiet_evs b -> quiet_evs (a ++ b).
-Proof. intros [A1 A2] [B1 B2]. split; [rewrite existsb_app, A1, B1 | rewrite results_app, A2, B2]; reflexivity. Qed.
-
-Lemma fold_F1 pe ents : forall sa ea,
-  quiet_evs ea ->
-  let '(s1, ev1) := fold_left (F1 pe) ents (sa, ea) in
-  subs s1 = drop (p_ski pe) (map re_addr ents) (subs sa) /\ next_sub s1 = next_sub sa /\
-  peers s1 = peers sa /\ quiet_evs ev1.
-Proof.
-  induction ents as [|en r IH]; intros sa ea Hq; simpl.
-  - rewrite drop_nil. auto.
-  - match goal with |- context [fold_left (F1 pe) r (?s0, ?e0)] =>
-      assert (Hq' : quiet_evs e0) by (apply quiet_evs_app; [exact Hq | apply evs_removed_quiet]);
-      specialize (IH s0 e0 Hq'); destruct (fold_left (F1 pe) r (s0, e0)) as [s1 ev1] end.
-    destruct IH as [H1 [H2 [H3 H4]]].
-    simpl in H1, H2, H3. split; [|auto].
-    rewrite H1. change (re_addr en :: map re_addr r) with ([re_addr en] ++ map re_addr r).
-    rewrite drop_app. f_equal. unfold drop. apply filter_ext'. intros x. unfold entity_match. simpl.
-    rewrite orb_false_r. reflexivity.
-Qed.
-
-Lemma fold_F2 pe ents : forall sa ea,
-  quiet_evs ea ->
-  let '(s1, ev1) := fold_left (F2 pe) ents (sa, ea) in
-  subs s1 = subs sa /\ next_sub s1 = next_sub sa /\ peers s1 = peers sa /\ quiet_evs ev1.
-Proof.
-  induction ents as [|en r IH]; intros sa ea Hq; simpl; [auto|].
-  match goal with |- context [fold_left (F2 pe) r (?s0, ?e0)] =>
-    assert (Hq' : quiet_evs e0) by (apply quiet_evs_app; [exact Hq | apply evs_removed_quiet]);
-    specialize (IH s0 e0 Hq'); destruct (fold_left (F2 pe) r (s0, e0)) as [s1 ev1] end.
-  destruct IH as [H1 [H2 [H3 H4]]]. auto.
-Qed.
-
-Lemma find_filter_other (l : list peer) p q :
-  q <> p -> find (fun x => N.eqb (p_ski x) q) (filter (fun x => negb (N.eqb (p_ski x) p)) l) =
-            find (fun x => N.eqb (p_ski x) q) l.
-Proof.
-  intros Hne. induction l as [|x l IH]; simpl; [reflexivity|].
-  destruct (N.eqb_spec (p_ski x) p) as [E|E]; simpl.
-  - destruct (N.eqb_spec (p_ski x) q); [congruence | exact IH].
-  - destruct (N.eqb (p_ski x) q); [reflexivity | exact IH].
-Qed.
-
-Lemma drop_all_of_peer s p pe l :
-  find_peer s p = Some pe -> (forall e, In e l -> owner_ok s e) ->
-  filter (fun x => negb (N.eqb (e_ski x) p && existsb (eqb_eaddr (fa_ent (e_cli x))) (map re_addr (p_ents pe)))) l =
-  filter (fun x => negb (N.eqb (e_ski x) p)) l.
-Proof.
-  intros Ep. induction l as [|x l IHl]; intros Hok; simpl; [reflexivity|].
-  assert (Hx : owner_ok s x) by (apply Hok; now left).
-  assert (Hl : forall e, In e l -> owner_ok s e) by (intros e He; apply Hok; now right).
-  destruct (N.eqb_spec (e_ski x) p) as [E|E]; simpl.
-  - destruct Hx as [pe' [en' [Hf Hr]]]. rewrite E, Ep in Hf. inversion Hf; subst pe'.
-    assert (Hex : existsb (eqb_eaddr (fa_ent (e_cli x))) (map re_addr (p_ents pe)) = true).
-    { apply existsb_exists. exists (re_addr en'). split.
-      - apply in_map. unfold find_rent in Hr. apply find_some in Hr. tauto.
-      - rewrite (find_rent_addr _ _ _ Hr). apply eqb_eaddr_refl. }
-    rewrite Hex. simpl. apply IHl. exact Hl.
-  - f_equal. apply IHl. exact Hl.
-Qed.
-
-Lemma disconnect_spec s p :
-  RegOK s ->
-  let '(s1, evs) := disconnect s p in
-  subs s1 = filter (fun x => negb (N.eqb (e_ski x) p)) (subs s) /\ next_sub s1 = next_sub s /\
-  RegOK s1 /\ find_peer s1 p = None /\ (forall q, q <> p -> find_peer s1 q = find_peer s q) /\ quiet_evs evs.
-Proof.
-  intros Hok. unfold disconnect. destruct (find_peer s p) as [pe|] eqn:Ep.
-  - rewrite remove_all_unfold.
-    pose proof (fold_F1 pe (p_ents pe) s [] (conj eq_refl eq_refl)) as H1.
-    destruct (fold_left (F1 pe) (p_ents pe) (s, [])) as [s1 ev1]. destruct H1 as [Hs1 [Hn1 [Hp1 Hq1]]].
-    pose proof (fold_F2 pe (p_ents pe) s1 ev1 Hq1) as H2.
-    destruct (fold_left (F2 pe) (p_ents pe) (s1, ev1)) as [s2 ev2]. destruct H2 as [Hs2 [Hn2 [Hp2 Hq2]]].
-    pose proof (find_peer_ski _ _ _ Ep) as Hski.
-    assert (Hsubs : subs s2 = filter (fun x => negb (N.eqb (e_ski x) p)) (subs s)).
-    { rewrite Hs2, Hs1. unfold drop. rewrite Hski. apply (drop_all_of_peer s p pe); [exact Ep | exact Hok]. }
-    destruct (clean_device_caches _ (p_addr pe)) as [a b c d e f g] eqn:Ec.
-    assert (Hc : subs (clean_device_caches
-               {| lents := lents s2; lfeats := lfeats s2; peers := filter (fun x => negb (N.eqb (p_ski x) p)) (peers s2);
-                  subs := subs s2; next_sub := next_sub s2; binds := binds s2; next_bind := next_bind s2 |} (p_addr pe)) = subs s2 /\
-               next_sub (clean_device_caches
-               {| lents := lents s2; lfeats := lfeats s2; peers := filter (fun x => negb (N.eqb (p_ski x) p)) (peers s2);
-                  subs := subs s2; next_sub := next_sub s2; binds := binds s2; next_bind := next_bind s2 |} (p_addr pe)) = next_sub s2 /\
-               peers (clean_device_caches
-               {| lents := lents s2; lfeats := lfeats s2; peers := filter (fun x => negb (N.eqb (p_ski x) p)) (peers s2);
-                  subs := subs s2; next_sub := next_sub s2; binds := binds s2; next_bind := next_bind s2 |} (p_addr pe)) =
-               filter (fun x => negb (N.eqb (p_ski x) p)) (peers s2)).
-    { unfold clean_device_caches. destruct (p_addr pe); simpl; auto. }
-    rewrite Ec in Hc. simpl in Hc. destruct Hc as [Hc1 [Hc2 Hc3]]. subst d e c.
-    assert (Hfind : forall q, q <> p -> find_peer {| lents := a; lfeats := b;
-                       peers := filter (fun x => negb (N.eqb (p_ski x) p)) (peers s2);
-                       subs := subs s2; next_sub := next_sub s2; binds := f; next_bind := g |} q = find_peer s q).
-    { intros q Hq. unfold find_peer. simpl. rewrite find_filter_other by exact Hq. rewrite Hp2, Hp1. reflexivity. }
-    simpl. split; [exact Hsubs|]. split; [rewrite Hn2, Hn1; reflexivity|]. split; [|split; [|split]].
-    + intros x Hx. simpl in Hx. rewrite Hsubs in Hx. apply filter_In in Hx. destruct Hx as [Hx Hm].
-      destruct (N.eqb_spec (e_ski x) p) as [E|E]; [discriminate|].
-      destruct (Hok x Hx) as [pe' [en' [Hf Hr]]]. exists pe', en'. split; [|exact Hr].
-      rewrite Hfind by exact E. exact Hf.
-    + unfold find_peer. simpl. destruct (find _ _) as [y|] eqn:Ef; [|reflexivity].
-      apply find_some in Ef. destruct Ef as [Hin Hy]. apply filter_In in Hin. destruct Hin as [_ Hn].
-      rewrite Hy in Hn. discriminate.
-    + exact Hfind.
-    + apply quiet_evs_app; [exact Hq2 | split; reflexivity].
-  - split; [|split; [reflexivity|split; [exact Hok|split; [exact Ep|split; [reflexivity|split; reflexivity]]]]].
-    symmetry. apply filter_all. intros x Hx. destruct (Hok x Hx) as [pe' [en' [Hf _]]].
-    destruct (N.eqb_spec (e_ski x) p) as [E|E]; [|reflexivity]. rewrite E, Ep in Hf. discriminate.
-Qed.
-
 (* ---------- operations that do not concern the subscription registry ---------- *)
-Definition frame (s s1 : st) : Prop :=
-  subs s1 = subs s /\ next_sub s1 = next_sub s /\ (RegOK s -> RegOK s1).
-
-Lemma frame_peers s s1 : subs s1 = subs s -> next_sub s1 = next_sub s -> peers s1 = peers s -> frame s s1.
-Proof.
-  intros H1 H2 H3. split; [exact H1|]. split; [exact H2|].
-  intros Hok e He. rewrite H1 in He. apply (owner_peers s s1 e H3). apply Hok. exact He.
-Qed.
-
-Lemma upd_lfeat_frame s e f g : frame s (upd_lfeat s e f g).
-Proof. apply frame_peers; reflexivity. Qed.
-
-Lemma RegOK_set_peer_add' s p pe pe0 m l :
-  find_peer s p = Some pe -> p_ski pe0 = p_ski pe -> p_ents pe0 = p_ents pe ->
-  RegOK s -> RegOK (set_peer s (fst (add_entities pe0 m l))).
-Proof.
-  intros Hp Hs0 He0 Hok e He. simpl in He. destruct (Hok e He) as [pe' [en' [Hf Hr]]].
-  unfold owner_ok. rewrite find_peer_set_peer, Hf, add_entities_ski, Hs0.
-  destruct (N.eqb_spec (e_ski e) (p_ski pe)) as [E|E].
-  - pose proof (find_peer_ski _ _ _ Hp) as Hski.
-    assert (pe' = pe) by congruence. subst pe'.
-    assert (Hh : has_rent pe0 (fa_ent (e_cli e)) = true).
-    { unfold has_rent. rewrite He0. apply has_rent_find. eauto. }
-    apply (add_entities_keeps pe0 m l) in Hh. apply has_rent_find in Hh. destruct Hh as [en2 Hen2]. eauto.
-  - eauto.
-Qed.
-
-Lemma add_binding_frame s pe c :
-  let '(s1, evs, err) := add_binding s pe c in
-  subs s1 = subs s /\ next_sub s1 = next_sub s /\ peers s1 = peers s /\
-  existsb is_notify evs = false /\ filter is_sub_event evs = [] /\ results evs = [].
-Proof.
-  unfold add_binding.
-  destruct (local_feature s (rc_srv c)) as [sf|]; [|simpl; repeat split; reflexivity].
-  destruct (rc_type c) as [t|]; [|simpl; repeat split; reflexivity].
-  destruct (negb (role_type_ok (lf_role sf) (lf_type sf) RServer t)); [simpl; repeat split; reflexivity|].
-  destruct (bindings_on s sf); [|simpl; repeat split; reflexivity].
-  destruct (remote_feature pe (rc_cli c)) as [[en rf]|]; [|simpl; repeat split; reflexivity].
-  destruct (negb (role_type_ok (rf_role rf) (rf_type rf) RClient t)); simpl; repeat split; reflexivity.
-Qed.
-
-Lemma remove_binding_frame s pe c :
-  let '(s1, evs, err) := remove_binding s pe c in
-  subs s1 = subs s /\ next_sub s1 = next_sub s /\ peers s1 = peers s /\
-  existsb is_notify evs = false /\ filter is_sub_event evs = [] /\ results evs = [].
-Proof.
-  unfold remove_binding.
-  destruct (remote_feature pe (rc_cli c)) as [[en rf]|]; [|simpl; repeat split; reflexivity].
-  destruct (local_feature s (rc_srv c)) as [sf|]; [|simpl; repeat split; reflexivity].
-  destruct (negb (role_type_ok (lf_role sf) (lf_type sf) RServer (lf_type sf))); [simpl; repeat split; reflexivity|].
-  destruct (negb (has_binding s sf (rf_addr en rf))); [simpl; repeat split; reflexivity|].
-  cbv zeta. destruct (Nat.eqb _ _); simpl; repeat split; reflexivity.
-Qed.
+Definition frame (s s1 : st) : Prop := subs s1 = subs s /\ next_sub s1 = next_sub s.
 
 Lemma quiet_ok out : existsb is_notify out = false -> filter is_sub_event out = [] -> quiet out = [].
 Proof.
@@ -595,22 +151,45 @@ Proof.
   assert (In x (filter is_sub_event out)) by (apply filter_In; auto). rewrite H2 in H. destruct H.
 Qed.
 
+Lemma add_binding_quiet s pe c :
+  let '(s1, evs, err) := add_binding s pe c in
+  frame s s1 /\ existsb is_notify evs = false /\ filter is_sub_event evs = [].
+Proof.
+  unfold add_binding, frame.
+  destruct (local_feature s (rc_srv c)) as [sf|]; [|simpl; repeat split; reflexivity].
+  destruct (rc_type c) as [t|]; [|simpl; repeat split; reflexivity].
+  destruct (negb (role_type_ok (lf_role sf) (lf_type sf) RServer t)); [simpl; repeat split; reflexivity|].
+  destruct (bindings_on s sf); [|simpl; repeat split; reflexivity].
+  destruct (remote_feature pe (rc_cli c)) as [[en rf]|]; [|simpl; repeat split; reflexivity].
+  destruct (negb (role_type_ok (rf_role rf) (rf_type rf) RClient t)); simpl; repeat split; reflexivity.
+Qed.
+
+Lemma remove_binding_quiet s pe c :
+  let '(s1, evs, err) := remove_binding s pe c in
+  frame s s1 /\ existsb is_notify evs = false /\ filter is_sub_event evs = [].
+Proof.
+  unfold remove_binding, frame.
+  destruct (remote_feature pe (rc_cli c)) as [[en rf]|]; [|simpl; repeat split; reflexivity].
+  destruct (local_feature s (rc_srv c)) as [sf|]; [|simpl; repeat split; reflexivity].
+  destruct (negb (role_type_ok (lf_role sf) (lf_type sf) RServer (lf_type sf))); [simpl; repeat split; reflexivity|].
+  destruct (negb (has_binding s sf (rf_addr en rf))); [simpl; repeat split; reflexivity|].
+  cbv zeta. destruct (Nat.eqb _ _); simpl; repeat split; reflexivity.
+Qed.
+
 Lemma registry_call_bind s p ctr ack c (f : st -> peer -> reg_call -> st * list obs * bool) :
   (forall s pe c, let '(s1, evs, err) := f s pe c in
-     subs s1 = subs s /\ next_sub s1 = next_sub s /\ peers s1 = peers s /\
-     existsb is_notify evs = false /\ filter is_sub_event evs = [] /\ results evs = []) ->
+     frame s s1 /\ existsb is_notify evs = false /\ filter is_sub_event evs = []) ->
   let '(s1, out) := registry_call s p ctr ack c f in
   quiet out = [] /\ frame s s1.
 Proof.
   intros Hf. unfold registry_call, with_source.
-  destruct (find_peer s p) as [pe|]; [|split; [reflexivity | apply frame_peers; reflexivity]].
-  destruct (remote_feature pe (nm_addr None)); [|split; [reflexivity | apply frame_peers; reflexivity]].
+  destruct (find_peer s p) as [pe|]; [|split; [reflexivity | split; reflexivity]].
+  destruct (remote_feature pe (nm_addr None)); [|split; [reflexivity | split; reflexivity]].
   specialize (Hf s pe c). destruct (f s pe c) as [[s1 evs] err].
-  destruct Hf as [H1 [H2 [H3 [H4 [H5 H6]]]]]. split.
-  - apply quiet_ok.
-    + rewrite existsb_app, H4, call_no_notify. reflexivity.
-    + rewrite filter_app, H5, call_no_subev. reflexivity.
-  - apply frame_peers; assumption.
+  destruct Hf as [H1 [H4 H5]]. split; [|exact H1].
+  apply quiet_ok.
+  - rewrite existsb_app, H4, call_no_notify. reflexivity.
+  - rewrite filter_app, H5, call_no_subev. reflexivity.
 Qed.
 
 Definition is_default (o : op) : bool :=
@@ -630,43 +209,40 @@ Lemma default_ops_frame s o : is_default o = true ->
   let '(s1, out) := step s o in quiet out = [] /\ frame s s1.
 Proof.
   destruct o; simpl is_default; try discriminate; intros _.
-  - (* AddLocalEntity *) simpl. destruct (existsb _ (lents s)); split; try reflexivity; apply frame_peers; reflexivity.
-  - (* AddLocalFeature *) simpl. destruct (find _ (lents s)); split; try reflexivity; apply frame_peers; reflexivity.
-  - (* AddFunction *) simpl. split; [reflexivity | apply upd_lfeat_frame].
+  - (* AddLocalEntity *) simpl. destruct (existsb _ (lents s)); split; try reflexivity; split; reflexivity.
+  - (* AddLocalFeature *) simpl. destruct (find _ (lents s)); split; try reflexivity; split; reflexivity.
+  - (* AddFunction *) simpl. split; [reflexivity | split; reflexivity].
   - (* DiscoveryReply *)
-    cbn [step]. unfold with_source. destruct (find_peer s p) as [pe|] eqn:Ep; [|split; [reflexivity | apply frame_peers; reflexivity]].
-    destruct (remote_feature pe (nm_addr None)); [|split; [reflexivity | apply frame_peers; reflexivity]].
-    set (pe0 := {| p_ski := p_ski pe; p_addr := match dm_dev m with Some d => Some d | None => p_addr pe end; p_ents := p_ents pe |}).
-    pose proof (RegOK_set_peer_add' s p pe pe0 m (dm_ents m) Ep eq_refl eq_refl) as Hok.
-    destruct (add_entities pe0 m (dm_ents m)) as [pe1 created]. simpl fst in Hok.
+    cbn [step]. unfold with_source. destruct (find_peer s p) as [pe|] eqn:Ep; [|split; [reflexivity | split; reflexivity]].
+    destruct (remote_feature pe (nm_addr None)); [|split; [reflexivity | split; reflexivity]].
+    destruct (add_entities _ m (dm_ents m)) as [pe1 created].
     assert (Hq : quiet (OEvent EvDevice ChAdd p None None None :: map (ev_entity ChAdd pe1) created) = []).
     { apply quiet_ok; simpl.
       - apply (quiet_added pe1 created).
       - induction created as [|x l IH]; simpl; [reflexivity | exact IH]. }
-    destruct (p_addr pe1); (split; [exact Hq|]); split; try reflexivity; split; try reflexivity; intros H; exact (Hok H).
-  - (* BindCall *) cbn [step]. apply registry_call_bind. intros. apply add_binding_frame.
-  - (* BindDelete *) cbn [step]. apply registry_call_bind. intros. apply remove_binding_frame.
-  - (* ListBinds *) cbn [step]. split; [|apply frame_peers; reflexivity].
+    destruct (p_addr pe1); (split; [exact Hq|]); split; reflexivity.
+  - (* BindCall *) cbn [step]. apply registry_call_bind. intros. apply add_binding_quiet.
+  - (* BindDelete *) cbn [step]. apply registry_call_bind. intros. apply remove_binding_quiet.
+  - (* ListBinds *) cbn [step]. split; [|split; reflexivity].
     apply quiet_ok; apply listing_quiet.
   - (* LocalSubscribe *)
     cbn [step]. unfold local_request.
-    destruct (find_lfeat s e (Some f)) as [lf|]; [|split; [reflexivity | apply frame_peers; reflexivity]].
-    destruct (fa_dev r); [|split; [reflexivity | apply frame_peers; reflexivity]].
-    destruct (peer_by_addr s n); [|split; [reflexivity | apply frame_peers; reflexivity]].
-    destruct (eqb_role (lf_role lf) RServer); split; try reflexivity; try (apply frame_peers; reflexivity).
+    destruct (find_lfeat s e (Some f)) as [lf|]; [|split; [reflexivity | split; reflexivity]].
+    destruct (fa_dev r); [|split; [reflexivity | split; reflexivity]].
+    destruct (peer_by_addr s n); [|split; [reflexivity | split; reflexivity]].
+    destruct (eqb_role (lf_role lf) RServer); split; try reflexivity; split; reflexivity.
   - (* LocalBind *)
     cbn [step]. unfold local_request.
-    destruct (find_lfeat s e (Some f)) as [lf|]; [|split; [reflexivity | apply frame_peers; reflexivity]].
-    destruct (fa_dev r); [|split; [reflexivity | apply frame_peers; reflexivity]].
-    destruct (peer_by_addr s n); [|split; [reflexivity | apply frame_peers; reflexivity]].
-    destruct (eqb_role (lf_role lf) RServer); split; try reflexivity; try (apply frame_peers; reflexivity).
-  - cbn [step]. destruct (find_lfeat s e (Some f)); split; try reflexivity; apply frame_peers; reflexivity.
-  - cbn [step]. destruct (find_lfeat s e (Some f)); split; try reflexivity; apply frame_peers; reflexivity.
+    destruct (find_lfeat s e (Some f)) as [lf|]; [|split; [reflexivity | split; reflexivity]].
+    destruct (fa_dev r); [|split; [reflexivity | split; reflexivity]].
+    destruct (peer_by_addr s n); [|split; [reflexivity | split; reflexivity]].
+    destruct (eqb_role (lf_role lf) RServer); split; try reflexivity; split; reflexivity.
+  - cbn [step]. destruct (find_lfeat s e (Some f)); split; try reflexivity; split; reflexivity.
+  - cbn [step]. destruct (find_lfeat s e (Some f)); split; try reflexivity; split; reflexivity.
   - cbn [step]. destruct (find_lfeat s e (Some f)) as [lf|]; [destruct (assoc_N fn (lf_data lf))|];
-      split; try reflexivity; apply frame_peers; reflexivity.
-  - cbn [step]. split; [reflexivity | apply frame_peers; reflexivity].
+      split; try reflexivity; split; reflexivity.
+  - cbn [step]. split; [reflexivity | split; reflexivity].
 Qed.
-
 
 Lemma existsb_abs_reg s m (P : sentry -> bool) (Q : entry -> bool) :
   Inv s m -> (forall x, P (strip x) = Q x) -> existsb P (reg m) = existsb Q (subs s).
@@ -707,16 +283,16 @@ Lemma write_shape s p ctr ack src dst fn v :
    (existsb is_ev_data out = false /\ filter is_notify out = [])).
 Proof.
   cbn [step]. unfold with_source.
-  destruct (find_peer s p) as [pe|]; [|split; [apply frame_peers; reflexivity | split; [reflexivity | right; split; reflexivity]]].
-  destruct (remote_feature pe src) as [[en rf]|]; [|split; [apply frame_peers; reflexivity | split; [reflexivity | right; split; reflexivity]]].
-  destruct (local_feature s dst) as [lf|]; [|split; [apply frame_peers; reflexivity | split; [reflexivity | right; split; reflexivity]]].
+  destruct (find_peer s p) as [pe|]; [|split; [split; reflexivity | split; [reflexivity | right; split; reflexivity]]].
+  destruct (remote_feature pe src) as [[en rf]|]; [|split; [split; reflexivity | split; [reflexivity | right; split; reflexivity]]].
+  destruct (local_feature s dst) as [lf|]; [|split; [split; reflexivity | split; [reflexivity | right; split; reflexivity]]].
   destruct (assoc_N fn (lf_ops lf)) as [[rd [|]]|];
-    try (split; [apply frame_peers; reflexivity | split; [reflexivity | right; split; reflexivity]]).
+    try solve [split; [split; reflexivity | split; [reflexivity | right; split; reflexivity]]].
   destruct (negb (has_binding s lf (rf_addr en rf)));
-    [split; [apply frame_peers; reflexivity | split; [reflexivity | right; split; reflexivity]]|].
+    [split; [split; reflexivity | split; [reflexivity | right; split; reflexivity]]|].
   destruct (negb (fn_registered (lf_type lf) fn));
-    [split; [apply frame_peers; reflexivity | split; [reflexivity | right; split; reflexivity]]|].
-  split; [apply upd_lfeat_frame|]. split.
+    [split; [split; reflexivity | split; [reflexivity | right; split; reflexivity]]|].
+  split; [split; reflexivity|]. split.
   - rewrite existsb_app, notify_no_subev. destruct ack; reflexivity.
   - left. split.
     + rewrite existsb_app. simpl. rewrite orb_true_r. reflexivity.
@@ -725,48 +301,27 @@ Proof.
       destruct ack; simpl; rewrite app_nil_r; reflexivity.
 Qed.
 
+Lemma Inv_same s m o : Inv s m -> fst (step s o) = s -> Inv (fst (step s o)) {| w := fst (step s o); reg := reg m |}.
+Proof. intros I E. rewrite E. constructor; [reflexivity | apply (inv_reg _ _ I) | exact (inv_s _ _ I)]. Qed.
+
 (* ---------- the main step lemma ---------- *)
-Lemma find_app' {A} (f : A -> bool) (l1 l2 : list A) :
-  find f (l1 ++ l2) = match find f l1 with Some x => Some x | None => find f l2 end.
-Proof. induction l1 as [|x l IH]; simpl; [reflexivity|]. destruct (f x); [reflexivity | exact IH]. Qed.
-
-Lemma NoDup_snoc {A} (l : list A) x : NoDup l -> ~ In x l -> NoDup (l ++ [x]).
+Lemma Inv_of_frame s m o : Inv s m -> frame s (fst (step s o)) -> Inv (fst (step s o)) {| w := fst (step s o); reg := reg m |}.
 Proof.
-  induction l as [|y l IH]; simpl; intros Hd Hn; [constructor; [tauto | constructor]|].
-  inversion Hd as [|? ? Hy Hl]; subst. constructor.
-  - intros Hin. apply in_app_or in Hin. destruct Hin as [Hin|[E|[]]]; [tauto | subst; tauto].
-  - apply IH; tauto.
-Qed.
-
-Lemma Inv_of_frame s m s1 : Inv s m -> frame s s1 -> Inv s1 {| w := s1; reg := reg m |}.
-Proof.
-  intros I [H1 [H2 H3]]. constructor; simpl.
+  intros I [H1 H2]. constructor; simpl.
   - reflexivity.
   - rewrite H1. apply (inv_reg _ _ I).
-  - rewrite H1, H2. apply (inv_ids _ _ I).
-  - rewrite H1. apply (inv_nodup _ _ I).
-  - apply H3. exact (inv_owner _ _ I).
+  - apply sinv_step. exact (inv_s _ _ I).
 Qed.
 
-Lemma sublist_ids (P : entry -> bool) l : NoDup (map e_id l) -> NoDup (map e_id (filter P l)).
-Proof.
-  induction l as [|x l IH]; simpl; intros H; [constructor|].
-  inversion H as [|? ? Hn Hd]; subst. destruct (P x); simpl; [|auto].
-  constructor; [|auto]. intros Hin. apply Hn. apply in_map_iff in Hin. destruct Hin as [y [Hy Hin]].
-  apply in_map_iff. exists y. split; [exact Hy|]. apply filter_In in Hin. tauto.
-Qed.
-
-Lemma Inv_filter s m s1 (P : entry -> bool) (Q : sentry -> bool) :
+Lemma Inv_filter s m o (P : entry -> bool) (Q : sentry -> bool) :
   Inv s m -> (forall x, Q (strip x) = P x) ->
-  subs s1 = filter P (subs s) -> next_sub s1 = next_sub s -> RegOK s1 ->
-  Inv s1 {| w := s1; reg := filter Q (reg m) |}.
+  subs (fst (step s o)) = filter P (subs s) ->
+  Inv (fst (step s o)) {| w := fst (step s o); reg := filter Q (reg m) |}.
 Proof.
-  intros I HPQ H1 H2 H3. constructor; simpl.
+  intros I HPQ H1. constructor; simpl.
   - reflexivity.
   - rewrite (inv_reg _ _ I), H1. apply filter_abs. exact HPQ.
-  - intros e He. rewrite H1 in He. apply filter_In in He. rewrite H2. apply (inv_ids _ _ I). tauto.
-  - rewrite H1. apply sublist_ids. apply (inv_nodup _ _ I).
-  - exact H3.
+  - apply sinv_step. exact (inv_s _ _ I).
 Qed.
 
 Lemma sender_known_eq s m p : w m = s ->
@@ -776,186 +331,173 @@ Lemma sender_known_eq s m p : w m = s ->
                      end.
 Proof. intros <-. reflexivity. Qed.
 
+(* the shape of the goal: the monitor's next world is the model's next state *)
 Lemma step_inv s m o : Inv s m ->
-  let '(s1, out) := step s o in
-  let '(m1, v) := mon m o out in
-  v = [] /\ Inv s1 m1.
+  let '(m1, v) := mon m o (snd (step s o)) in
+  v = [] /\ Inv (fst (step s o)) m1.
 Proof.
-  intros I. pose proof (inv_w _ _ I) as Hw.
+  intros I. pose proof (inv_w _ _ I) as Hw. pose proof (si_ok _ (inv_s _ _ I)) as Hok.
   destruct (is_default o) eqn:Ed.
   { pose proof (default_ops_frame s o Ed) as Hf.
     assert (Hm : forall out, mon m o out = (advance m o (reg m), quiet out)) by (destruct o; try discriminate; reflexivity).
-    destruct (step s o) as [s1 out] eqn:Es. rewrite Hm. destruct Hf as [Hq Hf].
-    split; [exact Hq|]. unfold advance. rewrite Hw, Es. simpl fst. exact (Inv_of_frame s m s1 I Hf). }
+    rewrite Hm. unfold advance. rewrite Hw. pose proof (Inv_of_frame s m o I) as HI.
+    destruct (step s o) as [s1 out] eqn:Es. destruct Hf as [Hq Hf]. simpl fst in *. simpl snd.
+    split; [exact Hq | exact (HI Hf)]. }
   destruct o; try discriminate; clear Ed.
   - (* Connect *)
-    cbn [step mon]. unfold advance. rewrite Hw. cbn [step].
-    pose proof (disconnect_spec s p (inv_owner _ _ I)) as Hd.
-    destruct (find_peer s p) as [pe|] eqn:Ep.
-    + destruct (disconnect s p) as [s0 evs]. destruct Hd as [Hs [Hn [Hok [Hnone [Hother [Hq1 Hq2]]]]]].
-      simpl. rewrite Hq1. split; [reflexivity|].
-      eapply (Inv_filter s m _ (fun x => negb (N.eqb (e_ski x) p)) (fun x => negb (N.eqb (s_ski x) p)) I);
-        [intros x; reflexivity | simpl; exact Hs | simpl; exact Hn |].
-      intros e He. simpl in He. destruct (Hok e He) as [pe' [en' [Hf Hr]]].
-      exists pe', en'. split; [|exact Hr]. unfold find_peer in *. simpl. rewrite find_app', Hf. reflexivity.
-    + simpl. split; [reflexivity|].
-      eapply (Inv_filter s m _ (fun x => negb (N.eqb (e_ski x) p)) (fun x => negb (N.eqb (s_ski x) p)) I);
-        [intros x; reflexivity | simpl | reflexivity |].
-      * symmetry. apply filter_all. intros x Hx. destruct (inv_owner _ _ I x Hx) as [pe' [en' [Hf _]]].
-        destruct (N.eqb_spec (e_ski x) p) as [E|E]; [|reflexivity]. rewrite E, Ep in Hf. discriminate.
-      * intros e He. simpl in He. destruct (inv_owner _ _ I e He) as [pe' [en' [Hf Hr]]].
-        exists pe', en'. split; [|exact Hr]. unfold find_peer in *. simpl. rewrite find_app', Hf. reflexivity.
+    cbn [mon]. unfold advance. rewrite Hw.
+    assert (Hsubs : subs (fst (step s (Connect p))) = not_of p (subs s) /\ existsb is_notify (snd (step s (Connect p))) = false).
+    { cbn [step]. pose proof (disconnect_spec s p Hok) as Hd.
+      destruct (find_peer s p) as [pe|] eqn:Ep.
+      - destruct (disconnect s p) as [s0 evs]. destruct Hd as [[H1 _ _ _] [_ [_ [_ [Hq _]]]]]. simpl. auto.
+      - simpl. unfold disconnect in Hd. rewrite Ep in Hd. destruct Hd as [[H1 _ _ _] _]. auto. }
+    destruct Hsubs as [Hs Hq]. rewrite Hq. split; [reflexivity|].
+    apply (Inv_filter s m (Connect p) (fun x => negb (N.eqb (e_ski x) p)) (fun x => negb (N.eqb (s_ski x) p)) I);
+      [intros x; reflexivity | exact Hs].
   - (* DiscoveryNotify *)
-    cbn [step mon]. unfold advance. rewrite Hw. cbn [step]. unfold with_source.
-    destruct (find_peer s p) as [pe|] eqn:Ep.
-    2:{ simpl. split; [reflexivity|]. 
-        eapply (Inv_filter s m s (fun x => true) _ I); [intros x; simpl; rewrite andb_false_r; reflexivity | | reflexivity | exact (inv_owner _ _ I)].
-        symmetry. apply filter_all. reflexivity. }
-    destruct (remote_feature pe (nm_addr None)).
-    2:{ simpl. split; [reflexivity|].
-        eapply (Inv_filter s m s (fun x => true) _ I); [intros x; simpl; rewrite andb_false_r; reflexivity | | reflexivity | exact (inv_owner _ _ I)].
-        symmetry. apply filter_all. reflexivity. }
-    destruct (dm_ents m0) as [|d0 dr] eqn:Edm.
-    + assert (Hcq : existsb is_notify (call_result p ctr ack true (nm_addr (p_addr pe)) (nm_addr (Some LOCAL_DEV))) = false) by apply call_no_notify.
-      simpl fst. rewrite Hcq. simpl. split; [reflexivity|].
-      eapply (Inv_filter s m s (fun x => true) _ I); [intros x; simpl; rewrite andb_false_r; reflexivity | | reflexivity | exact (inv_owner _ _ I)].
-      symmetry. apply filter_all. reflexivity.
-    + rewrite <- Edm. destruct (notify_entries s p m0 (dm_ents m0)) as [[s1 evs] err] eqn:En.
-      destruct (notify_entries_spec _ _ _ _ _ _ _ (inv_owner _ _ I) En) as [Hok1 [Hs1 [Hn1 [Hq1 Hr1]]]].
-      simpl fst. rewrite existsb_app, Hq1, call_no_notify. simpl. split; [reflexivity|].
-      assert (Hg : flat_map (fun x => match x with OEvent EvEntity ChRemove _ (Some e) _ _ => [e] | _ => [] end)
-                     (evs ++ call_result p ctr ack err (nm_addr (p_addr pe)) (nm_addr (Some LOCAL_DEV))) = gone_of evs).
-      { fold (gone_of (evs ++ call_result p ctr ack err (nm_addr (p_addr pe)) (nm_addr (Some LOCAL_DEV)))).
-        rewrite gone_of_app. unfold call_result. destruct err; [|destruct ack]; simpl; rewrite app_nil_r; reflexivity. }
-      rewrite Hg.
-      eapply (Inv_filter s m s1 _ _ I); [| exact Hs1 | exact Hn1 | exact Hok1].
-      intros x. reflexivity.
+    cbn [mon]. unfold advance. rewrite Hw.
+    assert (H : existsb is_notify (snd (step s (DiscoveryNotify p ctr ack m0))) = false /\
+                subs (fst (step s (DiscoveryNotify p ctr ack m0))) =
+                drop p (gone_of (snd (step s (DiscoveryNotify p ctr ack m0)))) (subs s)).
+    { cbn [step]. unfold with_source.
+      destruct (find_peer s p) as [pe|] eqn:Ep; [|simpl; rewrite drop_nil; auto].
+      destruct (remote_feature pe (nm_addr None)); [|simpl; rewrite drop_nil; auto].
+      destruct (dm_ents m0) as [|d0 dr] eqn:Edm.
+      - simpl. rewrite drop_nil. split; reflexivity.
+      - rewrite <- Edm. destruct (notify_entries s p m0 (dm_ents m0)) as [[s1 evs] err] eqn:En.
+        destruct (notify_entries_spec _ _ _ _ _ _ _ Hok En) as [_ [[Hs1 _ _ _] [Hq1 _]]].
+        simpl fst. simpl snd. rewrite existsb_app, Hq1, call_no_notify. split; [reflexivity|].
+        rewrite gone_of_app. replace (gone_of (call_result p ctr ack err (nm_addr (p_addr pe)) (nm_addr (Some LOCAL_DEV)))) with (@nil eaddr)
+          by (unfold call_result; destruct err; [|destruct ack]; reflexivity).
+        rewrite app_nil_r. exact Hs1. }
+    destruct H as [Hq Hs]. rewrite Hq. split; [reflexivity|].
+    refine (Inv_filter s m (DiscoveryNotify p ctr ack m0)
+              (fun x => negb (N.eqb (e_ski x) p && existsb (eqb_eaddr (fa_ent (e_cli x))) (gone_of (snd (step s (DiscoveryNotify p ctr ack m0))))))
+              _ I _ Hs).
+    intros x. reflexivity.
   - (* SubCall *)
-    cbn [step mon]. unfold advance. rewrite (sender_known_eq s m p Hw), Hw. cbn [step].
+    cbn [mon]. unfold advance. rewrite (sender_known_eq s m p Hw), Hw. cbn [step].
     unfold registry_call, with_source.
     destruct (find_peer s p) as [pe|] eqn:Ep.
-    2:{ simpl. split; [reflexivity|]. apply (Inv_of_frame s m s I); apply frame_peers; reflexivity. }
-    destruct (remote_feature pe (nm_addr None)).
-    2:{ simpl. split; [reflexivity|]. apply (Inv_of_frame s m s I); apply frame_peers; reflexivity. }
+    2:{ simpl. split; [reflexivity|]. constructor; [reflexivity | apply (inv_reg _ _ I) | exact (inv_s _ _ I)]. }
+    destruct (remote_feature pe (nm_addr None)) eqn:Enm.
+    2:{ simpl. split; [reflexivity|]. constructor; [reflexivity | apply (inv_reg _ _ I) | exact (inv_s _ _ I)]. }
     pose proof (add_sub_spec s (reg m) pe c (inv_reg _ _ I)) as Ha.
     pose proof (find_peer_ski _ _ _ Ep) as Hski.
     replace {| w := s; reg := reg m |} with m in Ha by (destruct m; simpl in *; congruence).
+    assert (Hstep : step s (SubCall p ctr ack c) =
+                    let '(s1, evs, err) := add_subscription s pe c in
+                    (s1, evs ++ call_result p ctr ack err (nm_addr (p_addr pe)) (nm_addr (Some LOCAL_DEV)))).
+    { cbn [step]. unfold registry_call, with_source. rewrite Ep, Enm. reflexivity. }
     destruct (grant m pe c) as [[[sf en] cli]|].
-    + destruct Ha as [Ha Hrent]. rewrite Ha. simpl fst.
+    + destruct Ha as [Ha Hrent]. rewrite Ha. simpl fst. simpl snd.
       split; [destruct ack; simpl; rewrite Hski, ?N.eqb_refl, ?eqb_eaddr_refl, ?eqb_faddr_refl; reflexivity|].
-      constructor; simpl.
-      * reflexivity.
-      * rewrite (inv_reg _ _ I). unfold abs. rewrite map_app. simpl. unfold strip. simpl. rewrite Hski. reflexivity.
-      * intros e He. apply in_app_or in He. destruct He as [He|[<-|[]]]; [|simpl; lia].
-        pose proof (inv_ids _ _ I e He). lia.
-      * rewrite map_app. simpl. apply NoDup_snoc; [apply (inv_nodup _ _ I)|].
-        intros Hin. apply in_map_iff in Hin. destruct Hin as [y [Hy Hin]].
-        pose proof (inv_ids _ _ I y Hin). lia.
-      * intros e He. apply in_app_or in He. destruct He as [He|[<-|[]]].
-        -- apply (owner_peers s); [reflexivity | apply (inv_owner _ _ I); exact He].
-        -- exists pe, en. simpl. rewrite Hski. split; [exact Ep | exact Hrent].
-    + destruct Ha as [n [Ha Hn]]. rewrite Ha. simpl fst.
-      assert (V : forall o, check (eqb_list eqb_res (results ([] ++ call_result p ctr ack true (nm_addr (p_addr pe)) o)) (expect_result p ctr ack true)) CL_GRANT ++
-                            quiet ([] ++ call_result p ctr ack true (nm_addr (p_addr pe)) o) = []).
+      pose proof (sinv_step s (SubCall p ctr ack c) (inv_s _ _ I)) as Hs1. rewrite Hstep, Ha in Hs1. simpl fst in Hs1.
+      constructor; simpl; [reflexivity | | exact Hs1].
+      rewrite (inv_reg _ _ I). unfold abs. rewrite map_app. simpl. unfold strip. simpl. rewrite Hski. reflexivity.
+    + destruct Ha as [n [Ha Hn]]. rewrite Ha. cbn [fst snd app].
+      assert (V : forall o, check (eqb_list eqb_res (results (call_result p ctr ack true (nm_addr (p_addr pe)) o)) (expect_result p ctr ack true)) CL_GRANT ++
+                            quiet (call_result p ctr ack true (nm_addr (p_addr pe)) o) = []).
       { intros o. simpl. rewrite !N.eqb_refl. reflexivity. }
-      rewrite V.
-      split; [reflexivity|]. constructor; simpl.
-      * reflexivity.
-      * apply (inv_reg _ _ I).
-      * intros e He. pose proof (inv_ids _ _ I e He). lia.
-      * apply (inv_nodup _ _ I).
-      * intros e He. apply (owner_peers s); [reflexivity | apply (inv_owner _ _ I); exact He].
+      rewrite V. split; [reflexivity|].
+      pose proof (sinv_step s (SubCall p ctr ack c) (inv_s _ _ I)) as Hs1. rewrite Hstep, Ha in Hs1. simpl fst in Hs1.
+      constructor; simpl; [reflexivity | apply (inv_reg _ _ I) | exact Hs1].
   - (* SubDelete *)
-    cbn [step mon]. unfold advance. rewrite (sender_known_eq s m p Hw), Hw. cbn [step].
-    unfold registry_call, with_source.
+    cbn [mon]. unfold advance. rewrite (sender_known_eq s m p Hw), Hw.
+    pose proof (sinv_step s (SubDelete p ctr ack c) (inv_s _ _ I)) as Hs1.
+    cbn [step] in *. unfold registry_call, with_source in *.
     destruct (find_peer s p) as [pe|] eqn:Ep.
-    2:{ simpl. split; [reflexivity|]. apply (Inv_of_frame s m s I); apply frame_peers; reflexivity. }
+    2:{ simpl. split; [reflexivity|]. constructor; [reflexivity | apply (inv_reg _ _ I) | exact Hs1]. }
     destruct (remote_feature pe (nm_addr None)).
-    2:{ simpl. split; [reflexivity|]. apply (Inv_of_frame s m s I); apply frame_peers; reflexivity. }
+    2:{ simpl. split; [reflexivity|]. constructor; [reflexivity | apply (inv_reg _ _ I) | exact Hs1]. }
     pose proof (remove_sub_spec s pe c) as Hrs.
     pose proof (find_peer_ski _ _ _ Ep) as Hski.
     destruct (remote_feature pe (rc_cli c)) as [[en rf]|].
-    2:{ rewrite Hrs. simpl fst.
-        split; [|apply (Inv_of_frame s m s I); apply frame_peers; reflexivity].
+    2:{ rewrite Hrs in *. cbn [fst snd] in *.
+        split; [|constructor; [reflexivity | apply (inv_reg _ _ I) | exact Hs1]].
         destruct (fa_dev (rc_cli c)), (p_addr pe); try destruct (negb (n =? n0)%N); try reflexivity;
           simpl; rewrite !N.eqb_refl; reflexivity. }
     destruct (local_feature s (rc_srv c)) as [sf|].
-    2:{ rewrite Hrs. simpl fst.
-        split; [|apply (Inv_of_frame s m s I); apply frame_peers; reflexivity].
+    2:{ rewrite Hrs in *. cbn [fst snd] in *.
+        split; [|constructor; [reflexivity | apply (inv_reg _ _ I) | exact Hs1]].
         destruct (fa_dev (rc_cli c)), (p_addr pe); try destruct (negb (n =? n0)%N); try reflexivity;
           simpl; rewrite !N.eqb_refl; reflexivity. }
-    cbv zeta in Hrs. rewrite Hrs. clear Hrs. cbv zeta.
-    set (hit_e := fun x : entry => eqb_faddr (e_cli x) (default_dev pe (rc_cli c)) && same_srv x sf).
+    cbv zeta in Hrs. rewrite Hrs in *. clear Hrs. cbv zeta.
+    set (hit_e := fun x : entry => eqb_faddr (e_cli x) (default_dev pe (rc_cli c)) && same_srv x sf) in *.
     rewrite (existsb_abs_reg s m _ hit_e I) by (intros x; reflexivity).
-    assert (Hfilt : forall s1, subs s1 = filter (fun x => negb (hit_e x)) (subs s) -> next_sub s1 = next_sub s -> peers s1 = peers s ->
+    assert (Hfilt : forall s1, SInv s1 -> subs s1 = filter (fun x => negb (hit_e x)) (subs s) ->
               Inv s1 {| w := s1; reg := filter (fun x : sentry => negb (eqb_faddr (s_cli x) (default_dev pe (rc_cli c)) &&
                                                            eqb_srv (s_srv x) (lf_ent sf, lf_id sf))) (reg m) |}).
-    { intros s1 H1 H2 H3. apply (Inv_filter s m s1 (fun x => negb (hit_e x)) _ I); [intros x; reflexivity | exact H1 | exact H2 |].
-      intros e He. rewrite H1 in He. apply filter_In in He. apply (owner_peers s s1 e H3). apply (inv_owner _ _ I). tauto. }
+    { intros s1 Hsi H1. constructor; simpl; [reflexivity | | exact Hsi].
+      rewrite (inv_reg _ _ I), H1. apply filter_abs. intros x. reflexivity. }
     destruct (existsb hit_e (subs s)) eqn:Eh.
-    + (* something is removed *)
-      simpl fst.
+    + cbn [fst snd] in *.
       match goal with |- context [if ?f then _ else _] => destruct f eqn:Ef end.
       * split; [reflexivity|].
-        assert (Hok : eqb_list eqb_res (results ([ev_reg EvSub ChRemove (p_ski pe) en (rf_addr en rf) sf] ++
+        assert (Hokr : eqb_list eqb_res (results ([ev_reg EvSub ChRemove (p_ski pe) en (rf_addr en rf) sf] ++
                         call_result p ctr ack false (nm_addr (p_addr pe)) (nm_addr (Some LOCAL_DEV)))) (expect_result p ctr ack false) = true).
         { destruct ack; simpl; rewrite ?N.eqb_refl; reflexivity. }
-        rewrite Hok. apply Hfilt; reflexivity.
+        rewrite Hokr. apply Hfilt; [exact Hs1 | reflexivity].
       * split; [destruct ack; simpl; rewrite Hski, ?N.eqb_refl, ?eqb_eaddr_refl, ?eqb_faddr_refl; reflexivity|].
-        apply Hfilt; reflexivity.
-    + simpl fst.
+        apply Hfilt; [exact Hs1 | reflexivity].
+    + cbn [fst snd] in *.
       match goal with |- context [if ?f then _ else _] => destruct f eqn:Ef end.
       * split; [reflexivity|].
-        assert (Hok : eqb_list eqb_res (results ([] ++ call_result p ctr ack true (nm_addr (p_addr pe)) (nm_addr (Some LOCAL_DEV)))) (expect_result p ctr ack false) = false).
+        assert (Hokr : eqb_list eqb_res (results ([] ++ call_result p ctr ack true (nm_addr (p_addr pe)) (nm_addr (Some LOCAL_DEV)))) (expect_result p ctr ack false) = false).
         { destruct ack; simpl; rewrite ?N.eqb_refl; reflexivity. }
-        rewrite Hok. apply (Inv_of_frame s m s I); apply frame_peers; reflexivity.
+        rewrite Hokr. constructor; [reflexivity | apply (inv_reg _ _ I) | exact Hs1].
       * split; [simpl; rewrite !N.eqb_refl; reflexivity|].
-        apply (Inv_of_frame s m s I); apply frame_peers; reflexivity.
+        constructor; [reflexivity | apply (inv_reg _ _ I) | exact Hs1].
   - (* SetData *)
-    cbn [step mon]. unfold advance. rewrite Hw. cbn [step].
+    cbn [mon]. unfold advance. rewrite Hw.
+    pose proof (sinv_step s (SetData e f fn v) (inv_s _ _ I)) as Hs1.
+    cbn [step] in *.
     destruct (find_lfeat s e (Some f)) as [sf|].
-    2:{ simpl. split; [reflexivity|]. apply (Inv_of_frame s m s I); apply frame_peers; reflexivity. }
-    destruct (fn_registered (lf_type sf) fn); simpl fst.
+    2:{ simpl. split; [reflexivity|]. constructor; [reflexivity | apply (inv_reg _ _ I) | exact Hs1]. }
+    destruct (fn_registered (lf_type sf) fn); simpl fst in *; simpl snd.
     + rewrite (fanout_eq s m sf fn v I).
       rewrite (filter_all is_notify) by apply notify_all_notify.
       rewrite same_multiset_refl by (intros x Hx; apply eqb_obs_notify_refl; exact (notify_all_notify _ _ _ _ _ Hx)).
       rewrite notify_no_subev. split; [reflexivity|].
-      apply (Inv_of_frame s m _ I). apply upd_lfeat_frame.
-    + simpl. split; [reflexivity|]. apply (Inv_of_frame s m s I); apply frame_peers; reflexivity.
+      constructor; [reflexivity | apply (inv_reg _ _ I) | exact Hs1].
+    + simpl. split; [reflexivity|]. constructor; [reflexivity | apply (inv_reg _ _ I) | exact Hs1].
   - (* Write *)
     cbn [mon]. unfold advance. rewrite Hw.
     pose proof (write_shape s p ctr ack src dst fn v) as Hws.
-    destruct (step s (Write p ctr ack src dst fn v)) as [s1 out]. simpl fst.
-    destruct Hws as [Hf [Hse Hcase]]. rewrite Hse.
+    pose proof (sinv_step s (Write p ctr ack src dst fn v) (inv_s _ _ I)) as Hs1.
+    destruct (step s (Write p ctr ack src dst fn v)) as [s1 out]. simpl fst in *. simpl snd.
+    destruct Hws as [[Hf1 Hf2] [Hse Hcase]]. rewrite Hse.
     destruct Hcase as [[Hacc [sf [Hlf Hn]]]|[Hacc Hn]]; rewrite Hacc.
     + rewrite Hlf, Hn, (fanout_eq s m sf fn v I).
       rewrite same_multiset_refl by (intros x Hx; apply eqb_obs_notify_refl; exact (notify_all_notify _ _ _ _ _ Hx)).
-      split; [reflexivity|]. exact (Inv_of_frame s m s1 I Hf).
-    + rewrite Hn. split; [reflexivity|]. exact (Inv_of_frame s m s1 I Hf).
+      split; [reflexivity|]. constructor; [reflexivity | simpl; rewrite Hf1; apply (inv_reg _ _ I) | exact Hs1].
+    + rewrite Hn. split; [reflexivity|]. constructor; [reflexivity | simpl; rewrite Hf1; apply (inv_reg _ _ I) | exact Hs1].
   - (* Disconnect *)
-    cbn [step mon]. unfold advance. rewrite Hw. cbn [step].
-    pose proof (disconnect_spec s p (inv_owner _ _ I)) as Hd.
-    destruct (disconnect s p) as [s0 evs]. destruct Hd as [Hs [Hn [Hok [Hnone [Hother [Hq1 Hq2]]]]]].
-    simpl fst. rewrite Hq1. split; [reflexivity|].
-    apply (Inv_filter s m s0 (fun x => negb (N.eqb (e_ski x) p)) (fun x => negb (N.eqb (s_ski x) p)) I);
-      [intros x; reflexivity | exact Hs | exact Hn | exact Hok].
+    cbn [mon]. unfold advance. rewrite Hw.
+    pose proof (disconnect_spec s p Hok) as Hd.
+    assert (Hs : subs (fst (step s (Disconnect p))) = not_of p (subs s) /\ existsb is_notify (snd (step s (Disconnect p))) = false).
+    { cbn [step]. destruct (disconnect s p) as [s0 evs]. destruct Hd as [[H1 _ _ _] [_ [_ [_ [Hq _]]]]]. auto. }
+    destruct Hs as [Hs Hq]. rewrite Hq. split; [reflexivity|].
+    apply (Inv_filter s m (Disconnect p) (fun x => negb (N.eqb (e_ski x) p)) (fun x => negb (N.eqb (s_ski x) p)) I);
+      [intros x; reflexivity | exact Hs].
   - (* ListSubs *)
-    cbn [step mon]. unfold advance. rewrite Hw. cbn [step]. simpl fst. cbv zeta.
+    cbn [mon]. unfold advance. rewrite Hw. cbn [step]. simpl fst. simpl snd. cbv zeta.
     rewrite (inv_reg _ _ I).
     rewrite (filter_abs _ (fun x => N.eqb (e_ski x) p)) by (intros x; reflexivity).
     rewrite seen_listing, ids_listing, length_listing, dev_listing.
     rewrite same_multiset_refl by (intros; apply eqb_sentry_refl).
     unfold abs. rewrite map_length, Nat.eqb_refl.
-    rewrite nodupb_true by (apply sublist_ids; apply (inv_nodup _ _ I)).
+    destruct (si_ids _ (inv_s _ _ I)) as [_ [Hnd _]].
+    rewrite nodupb_true by (apply sublist_ids; exact Hnd).
     split; [reflexivity|]. fold (abs (subs s)). rewrite <- (inv_reg _ _ I).
-    apply (Inv_of_frame s m s I); apply frame_peers; reflexivity.
+    constructor; [reflexivity | apply (inv_reg _ _ I) | exact (inv_s _ _ I)].
 Qed.
 
 Theorem run_accepted_from ops : forall s m, Inv s m -> accepted (judge m (snd (run s ops))) = true.
 Proof.
   induction ops as [|o ops IH]; intros s m I; [reflexivity|].
   simpl. pose proof (step_inv s m o I) as Hs.
-  destruct (step s o) as [s1 out]. destruct (run s1 ops) as [s2 tr] eqn:Er. simpl.
+  destruct (step s o) as [s1 out]. destruct (run s1 ops) as [s2 tr] eqn:Er. simpl in *.
   destruct (mon m o out) as [m1 v]. destruct Hs as [Hv I1]. subst v. simpl.
   specialize (IH s1 m1 I1). rewrite Er in IH. exact IH.
 Qed.
@@ -963,18 +505,9 @@ Qed.
 Theorem run_accepted ops : accepted (judge minit (snd (run init ops))) = true.
 Proof. apply run_accepted_from. exact inv_init. Qed.
 
-(* every reachable state satisfies the invariant (for some monitor state) *)
-Lemma run_inv ops : forall s m, Inv s m -> exists m', Inv (fst (run s ops)) m'.
-Proof.
-  induction ops as [|o ops IH]; intros s m I; simpl; [eauto|].
-  pose proof (step_inv s m o I) as Hs. destruct (step s o) as [s1 out].
-  destruct (mon m o out) as [m1 v]. destruct Hs as [_ I1].
-  destruct (IH s1 m1 I1) as [m' Hm']. destruct (run s1 ops) as [s2 tr]. simpl in *. eauto.
-Qed.
-
 Theorem ids_distinct ops : NoDup (map e_id (subs (fst (run init ops)))).
-Proof. destruct (run_inv ops init minit inv_init) as [m' I]. apply (inv_nodup _ _ I). Qed.
+Proof. destruct (si_ids _ (sinv_run ops init sinv_init)) as [_ [H _]]. exact H. Qed.
 
 Theorem entries_owned ops : forall e, In e (subs (fst (run init ops))) ->
   exists pe en, find_peer (fst (run init ops)) (e_ski e) = Some pe /\ find_rent pe (fa_ent (e_cli e)) = Some en.
-Proof. destruct (run_inv ops init minit inv_init) as [m' I]. apply (inv_owner _ _ I). Qed.
+Proof. destruct (si_ok _ (sinv_run ops init sinv_init)) as [H _]. exact H. Qed.
